@@ -196,4 +196,32 @@ func c29OpenAndRescan(fs *Facts, wr *File) {
 		fs.Err("%v", err)
 	}
 	fs.Tri("scanClearsIndex", clr, ex)
+	// the TUI opening a realm: all swamps (ListAllSwamps, or ListSwamps inside a loop that advances Offset),
+	// or one ListSwamps call whose Limit the explorer clamps to 1000
+	const tui = "app/hydraidectl/cmd/explore/model.go"
+	t := Unknown
+	if f, err := Load(tui); err == nil {
+		if fd := f.Func("Model", "drillDown"); fd != nil {
+			inLoop, single := false, 0
+			ast.Inspect(fd.Body, func(x ast.Node) bool {
+				if fr, ok := x.(*ast.ForStmt); ok {
+					if len(f.Calls(fr.Body, "m.explorer.ListSwamps")) == 1 && f.Contains(fr.Body, "Offset") {
+						inLoop = true
+					}
+				}
+				return true
+			})
+			single = len(f.Calls(fd.Body, "m.explorer.ListSwamps"))
+			all := len(f.Calls(fd.Body, "m.explorer.ListAllSwamps"))
+			switch {
+			case inLoop || (all == 1 && single == 0):
+				t = Yes
+			case single == 1 && all == 0:
+				t = No
+			}
+		}
+	} else {
+		fs.Err("%v", err)
+	}
+	fs.Tri("tuiListsAll", t, tui)
 }
